@@ -244,10 +244,10 @@ def histories(rng, tier):
     events = []
     n_hist = 12 if tier == "quick" else 80
     for hi in range(n_hist):
-        srn, shape = [("Sat3", "any"), ("Rat", "acyclic"), ("Bool", "any")][hi % 3]
+        srn, shape = [("Sat3", "any"), ("Rat", "acyclic"), ("Bool", "any"), ("Sat3", "leftcycle"), ("Bool", "leftcycle")][hi % 5]
         R = gops.SR[srn]
         g = fam.rand_cfg(rng, R, shape=shape, nN=3, nrules=5)
-        if shape == "any":
+        if shape in ("any", "leftcycle"):
             g = fam.ensure_language(g, rng)
         else:
             g.add(fam.weights_for(R)[0], g.S, "a", "b", "a")
